@@ -105,10 +105,8 @@ def check_event(s, ev, out):
             from .c02 import propagation_gaps
 
             for d, t, site in propagation_gaps(s, ev):
-                if site:
-                    continue  # listed under C02 (second feedback consumer)
                 out.fail(
-                    'reply/new-values-not-propagated',
+                    'reply/new-values-not-propagated' + site,
                     f'{u} reported new {sorted(ev["newset"])}: {d}[{t}] '
                     f'declares one of them but is not pending afterwards '
                     f'(todo={sorted(ev["after"][d][0])}, doing='
